@@ -14,7 +14,7 @@ NA = {
     "C07": "equivalence of a parallel schedule run with sequential execution quantifies over interleavings of rayon::join tasks: Kani has no thread support, Verus would need the scheduler rewritten over its permission types (a model, not the code), and the staging is decided by rustc's trait solver at compile time, which has no function body to put a contract on",
     "C12": "which tasks share a stage is computed by rustc's trait solver from type-level impls (no run-time code to specify) and termination on every pool size is a liveness property of rayon; contracts on one call cannot express either",
     "C14": "'does not compile' is a verdict of rustc's type checker; a contract verifier only ever sees programs that compiled",
-    "C17": "the property speaks about the state after unwinding out of user code; Kani treats a panic as a failed assertion with no continuation and Verus has no panics, so no contract within reach can express it (two genuine C17 violations seen by dynamic replay are described in DESIGN.md section 8.5 as out-of-family observations)",
+    "C17": "the property speaks about the state after unwinding out of user code; Kani treats a panic as a failed assertion with no continuation and Verus has no panics, so no contract within reach can express it (a panic in a component Drop during World::clear or remove leading to double drops was seen by dynamic replay during the design phase; it is described in DESIGN.md section 8.3 as an out-of-family observation)",
 }
 
 PENDING = "check not built yet in this session (planned engine and contracts: see DESIGN.md section 5); not claimed until its quick command exists"
